@@ -3,6 +3,7 @@ import Driver.C20
 import Driver.C09
 import Driver.C10
 import Driver.C05
+import Driver.C03
 open Driver
 
 def handle (line : String) : String :=
@@ -11,6 +12,7 @@ def handle (line : String) : String :=
   | "c20" :: args => c20 args
   | "c09" :: args => c09 args
   | "c05" :: args => c05 args
+  | "c03" :: args => c03 args
   | "c10" :: args => c10 args
   | "c12" :: args => c12 args
   | "c14" :: args => c10 args
